@@ -137,6 +137,8 @@ class Kernel:
         self.stall_plan = dict(cfg.get('stalls', {}))           # seq -> seconds
         self.short_write = cfg.get('short_write', False)
         self.trace_digest = hashlib.sha256()
+        self.seam_hook = None       # callable(kind, detail): may raise an injected fault
+        self.armed = None
 
     # ---- logging (never draws a choice, never reads a real clock) -------------------
     def norm_path(self, path):
@@ -371,6 +373,8 @@ class Kernel:
             self.fault_fired['clock_jump'] += 1
             self.record('fault:clock_jump', f'{delta:+g}s')
         self.record(kind, detail)
+        if self.seam_hook is not None:
+            self.seam_hook(kind, detail)
         return p
 
     def _die(self, p):
@@ -426,6 +430,19 @@ class Kernel:
         finally:
             KERNEL = None
         return self.fatal
+
+
+def make_sandbox(tag, seed):
+    """per-run scratch directory with a name that is a pure function of the seed (digits only vary), so that a
+    replay sees byte-identical paths; the suffix only grows when the same seed is being run concurrently"""
+    k = 0
+    while True:
+        d = f'/dev/shm/dsim-{tag}-{seed}-{k}'
+        try:
+            os.mkdir(d, 0o700)
+            return d
+        except FileExistsError:
+            k += 1
 
 
 def _get_rng_state(o):
@@ -596,6 +613,10 @@ def _sim_open(file, mode='r', buffering=-1, encoding=None, errors=None, newline=
     path = os.fspath(file)
     if isinstance(path, bytes):
         path = path.decode()
+    if path.endswith('.log') and os.path.abspath(path).startswith(k.cfg.get('repo_src', '/repo/src')):
+        # logging.conf's FileHandler appends all_messages_conf.log in the package directory: designed behaviour,
+        # not part of any property; keep the repository clean
+        return _real['open'](os.devnull, mode, buffering, encoding, errors, newline, closefd, opener)
     if not _WRITE_RE.search(mode):
         detail = k.norm_path(path)
         k.seam('open-r', detail)
